@@ -1,6 +1,7 @@
 /-
 Driver/C15.lean — line-protocol driver for C15.
-in : {"case": n, "table": Table, "cmds": [Cmd]}        Cmd = {"build": {"d": Dml}} | {"exec": {"i": k}}
+in : {"case": n, "table": Table, "other": Table?, "cmds": [Cmd]}        Cmd = {"build": {"d": Dml}} | {"exec": {"i": k}}
+     ("other": the table `o` that subqueries inside predicates select from; default: no columns, no rows)
    | {"case": n, "gen": true}                           dump of the regenerated decisions
 out: {"case": n, "steps": [{"model": table, "spec": table, "built": "ok"|"raises"|null,
                             "exec": "ok"|"error"|"noop"|null, "specExec": "ok"|"error"|"noop"|null, "scope": [names]}]}
@@ -13,33 +14,41 @@ open Lean Sqlframe Sqlframe.C15
 structure Case where
   case : Nat
   table : Option Table := none
+  other : Option Table := none
   cmds : Option (List Cmd) := none
   gen : Option Bool := none
   deriving FromJson
 
-def steps : List Cmd → Sess → SpecSess → List Json → List Json
+def steps (O : Table) : List Cmd → Sess → SpecSess → List Json → List Json
   | [], _, _, acc => acc.reverse
   | c :: cs, s, sp, acc =>
-    let s' := stepCmd genFlags c s
-    let sp' := specCmd c sp
+    let s' := stepCmd genFlags O c s
+    let sp' := specCmd O c sp
     let info : List (String × Json) := match c with
       | .build d =>
         [("built", toJson (match build genFlags d with | some _ => "ok" | none => "raises")),
-         ("exec", Json.null), ("specExec", Json.null), ("scope", toJson (violated d))]
+         ("exec", Json.null), ("specExec", Json.null), ("scope", toJson (violated O.cols d))]
       | .exec i =>
         let m : String := match listGet s.lazies i with
-          | some (some st) => (match execStmt st s.tbl with | some _ => "ok" | none => "error")
+          | some (some st) => (match execStmt O st s.tbl with | some _ => "ok" | none => "error")
           | _ => "noop"
         let (q, sc) : String × List String := match listGet sp.pending i with
-          | some d => ((match specDml d sp.tbl with | some _ => "ok" | none => "error"), violated d)
+          | some d => ((match specDml O d sp.tbl with | some _ => "ok" | none => "error"), violated O.cols d)
           | none => ("noop", [])
         [("built", Json.null), ("exec", toJson m), ("specExec", toJson q), ("scope", toJson sc)]
     let j := Json.mkObj ([("model", s'.tbl.toPlain), ("spec", sp'.tbl.toPlain)] ++ info)
-    steps cs s' sp' (j :: acc)
+    steps O cs s' sp' (j :: acc)
 
 def genDump : Json :=
-  let qs : List Gen.Dml.Qual := [.none, .cte, .phys, .other]
+  let qs : List Gen.Dml.Qual := [.none, .cte, .phys, .other, .sub]
+  let lexJ (lx : Lex) : Json := toJson [lx.dqString, lx.backtick, lx.escapes]
+  let names : List String := ["", "spark", "spark2", "databricks", "hive", "duckdb", "postgres", "mysql", "bigquery", "snowflake", "redshift",
+    "tsql", "sqlite", "trino", "presto", "clickhouse", "oracle", "doris", "starrocks"]
   Json.mkObj [
+    ("predDialect", toJson (reprStr Gen.Dml.predDialect)), ("predDialectName", toJson (dialectName Gen.Dml.predDialect)),
+    ("sessionInputDefault", toJson Gen.Dml.sessionInputDefault), ("sessionOutputDefault", toJson Gen.Dml.sessionOutputDefault),
+    ("predLex", lexJ genFlags.predLex), ("sparkLex", lexJ sparkLex),
+    ("lexTable", Json.mkObj (names.map (fun n => (n, lexJ (lexOf n))))),
     ("defaultPred", toJson Gen.Dml.defaultPred), ("predStringParsed", toJson Gen.Dml.predStringParsed),
     ("predListAnd", toJson Gen.Dml.predListAnd),
     ("predMatches", toJson (qs.map Gen.Dml.predMatches)), ("predTo", toJson (reprStr Gen.Dml.predTo)),
@@ -56,7 +65,8 @@ def handle (line : String) : String :=
     if c.gen = some true then Json.compress (Json.mkObj [("case", toJson c.case), ("gen", genDump)]) else
     match c.table, c.cmds with
     | some T, some cmds =>
-      Json.compress (Json.mkObj [("case", toJson c.case), ("steps", Json.arr (steps cmds { tbl := T } { tbl := T } []).toArray)])
+      let O : Table := c.other.getD { cols := [], rows := [] }
+      Json.compress (Json.mkObj [("case", toJson c.case), ("steps", Json.arr (steps O cmds { tbl := T } { tbl := T } []).toArray)])
     | _, _ => Json.compress (Json.mkObj [("err", toJson "no table / cmds")])
 
 partial def loop (h : IO.FS.Stream) (out : IO.FS.Stream) : IO Unit := do
